@@ -1,10 +1,90 @@
-import Tahoe.Happiness.Flow
-/-! C08 — happiness value equals a maximum server/share matching (placeholder while proofs are built). -/
+import Tahoe.Happiness.LemmasBrute
+/-!
+C08 — the happiness value equals the size of a maximum server/share matching.
+
+Model: `Tahoe/Happiness/{Graph,Flow}.lean` (transcription of `util/happinessutil.py` and of the flow
+code of `immutable/happiness_upload.py`: re-indexing, adjacency lists, BFS with colour / predecessor
+/ distance arrays and a FIFO queue, 0/±1 flow matrix, residual network rebuilt every round; the
+`while` loops run on fuel `len(graph)`, which the lemmas show is never exhausted).
+
+`rel m` is the list of (server, share) pairs of the sharemap `m`; `IsMatching E M` says `M` is a
+list of edges of `E` no two of which share a server or a share; `IsMaxMatchingSize E k` says some
+matching has `k` edges and none has more; `maxMatchingBrute E` is the executable maximum over all
+sublists of `E`.  A sharemap is a list of `(share, list of servers)`: *any* list, so every theorem
+holds for every insertion order of the dict and every iteration order of its sets.
+Helper lemmas: `Tahoe/Happiness/Lemmas*.lean` (loop invariant "the flow matrix is the indicator of
+a matching", BFS soundness/completeness, alternating-path augmentation, König cover argument).
+-/
 namespace Tahoe.C08
 open Tahoe.Happiness
 
-/-- test: the docstring example of `servers_of_happiness` -/
-theorem docstring_example :
-    serversOfHappiness [(1, [1]), (2, [1, 5]), (3, [1, 3]), (4, [1, 4]), (6, [2])] = 5 := by decide
+/-- the computed value is a natural number `k` such that some matching of the server/share
+relation has `k` edges and no matching has more -/
+theorem soh_is_maxMatchingSize (m : SetMap) :
+    0 ≤ serversOfHappiness m ∧ IsMaxMatchingSize (rel m) (serversOfHappiness m).toNat := by
+  obtain ⟨k, h1, h2⟩ := serversOfHappiness_spec m
+  rw [h1]
+  exact ⟨by omega, by simpa using h2⟩
+
+example : IsMatching (rel [(1, [1]), (2, [1, 5]), (3, [1, 3])]) [(1, 1), (5, 2), (3, 3)] := by
+  refine ⟨by decide, ?_⟩
+  simp only [List.pairwise_cons, List.Pairwise.nil]
+  decide
+
+/-- `servers_of_happiness(m)` = maximum matching number of the server/share relation of `m`,
+for every finite relation (the maximum taken by exhaustive search over all edge subsets) -/
+theorem soh_eq_maxMatching (m : SetMap) :
+    serversOfHappiness m = (maxMatchingBrute (rel m) : Int) := by
+  obtain ⟨k, h1, h2⟩ := serversOfHappiness_spec m
+  rw [h1, isMaxMatchingSize_unique h2 (maxMatchingBrute_spec (rel m))]
+
+example : serversOfHappiness [(1, [1]), (2, [1, 5]), (3, [1, 3]), (4, [1, 4]), (6, [2])] = 5 ∧
+    maxMatchingBrute (rel [(1, [1]), (2, [1, 5]), (3, [1, 3]), (4, [1, 4]), (6, [2])]) = 5 := by
+  decide +kernel
+
+/-- the value depends only on the relation, not on the order (or multiplicity) in which the dict
+and its sets present it -/
+theorem soh_order_independent (m m' : SetMap) (h : ∀ e, e ∈ rel m ↔ e ∈ rel m') :
+    serversOfHappiness m = serversOfHappiness m' := by
+  obtain ⟨k, h1, h2⟩ := serversOfHappiness_spec m
+  obtain ⟨k', h1', h2'⟩ := serversOfHappiness_spec m'
+  rw [h1, h1', isMaxMatchingSize_unique ((isMaxMatchingSize_congr h k).mp h2) h2']
+
+example : (∀ e, e ∈ rel [(0, [1, 2]), (1, [2])] ↔ e ∈ rel [(1, [2]), (0, [2, 1])]) := by
+  intro e; simp [rel]; grind
+
+/-- the same for the part of `servers_of_happiness` after `shares_by_server`, with the dict of
+servers in any order and every share set in any order -/
+theorem soh_of_servermap (sm : SetMap) (hk : (sm.map (·.1)).Nodup) (hr : ∀ e ∈ sm, e.2.Nodup) :
+    sohOfServermap sm = (maxMatchingBrute (relOfServermap sm) : Int) := by
+  obtain ⟨k, h1, h2⟩ := sohOfServermap_spec sm hk hr
+  rw [h1, isMaxMatchingSize_unique h2 (maxMatchingBrute_spec _)]
+
+example : ([(7, [3, 1]), (2, [1])].map (·.1)).Nodup ∧ ∀ e ∈ [(7, [3, 1]), (2, [1])], e.2.Nodup := by
+  decide
+
+/-- the loop exits because `augmenting_path_for` returned `False`, never because the fuel
+`len(graph)` ran out; at that point the flow matrix is the indicator of a matching `M` of the
+network's server/share edges, the returned sum is `|M|`, and no matching is larger -/
+theorem loop_exit_no_augmenting_path (g : Graph) (n s : Nat) (hL : Layered g n s) :
+    ∃ M, FlowInv g n s none (maxFlowOuter g).1 M ∧ flowValue (maxFlowOuter g).1 n = M.length ∧
+      augmentingPathFor (maxFlowOuter g).2.1 = none ∧
+      ∀ M' : List (Nat × Nat), Matching M' →
+        (∀ e ∈ M', 1 ≤ e.1 ∧ e.1 ≤ n ∧ e.2 ∈ adj g e.1) → M'.length ≤ M.length :=
+  maxFlowOuter_spec hL
+
+/-- `bfs` is sound and complete: after the run every vertex reachable from a reached vertex is
+reached, predecessors are edges with distance one less, and the `while queue` loop ended because
+the queue was empty (fuel `len(graph)` suffices) -/
+theorem bfs_sound_complete (g : Graph) (s : Nat) (hr : InRange g) (hs : s < g.length) :
+    BfsSpec g s (bfsRun g s) := bfsRun_spec g s hr hs
+
+example : InRange [[1, 2], [2], []] ∧ 0 < [[1, 2], [2], ([] : List Nat)].length := by
+  refine ⟨?_, by decide⟩
+  intro u v h
+  have hu := lt_of_mem_adj h
+  simp only [List.length_cons, List.length_nil] at hu ⊢
+  have : u = 0 ∨ u = 1 ∨ u = 2 := by omega
+  rcases this with rfl | rfl | rfl <;> simp [adj] at h <;> omega
 
 end Tahoe.C08
